@@ -75,10 +75,12 @@ class C14(core.Check):
                'TokenisedStream.skip_to; tied by correspondence on real Sessions (bytecode, line_numbers, '
                'old_to_new, Undefined-line reports, traps, errors); token table regenerated; that every '
                'line-number reference is tokenised as a 0E token is C17 (tokeniser)']
-    PARTIAL = ('behaviour preservation: only the abstract half is proved (RENUM is an increasing renaming of the '
-               'lines; the token-level rewriting is that renaming of the reference items; line lookup, ERL line and '
-               'statement structure of the C19/C21 control-flow machine commute with an injective renaming); the '
-               'step-by-step simulation RenumFlow.C14_simulation_flow_statement is stated, not proved, and not tested')
+    PARTIAL = ('behaviour preservation is a theorem only for the jump fragment of the C19/C21 control-flow machine '
+               '(line headers, PRINT, LET, GOTO, GOSUB, RETURN [n], IF..THEN [n] with its ELSE search, :ELSE [n], '
+               'ON..GOTO/GOSUB, END; programs whose targets all exist): C14_flow_simulation / C14_simulation_renum, also for '
+               'partial RENUMs with jumps between kept and renumbered lines. Outside, stated only '
+               '(C14_simulation_flow_statement): FOR/NEXT, WHILE/WEND, ERROR, ON ERROR GOTO, RESUME, READ/DATA/RESTORE, '
+               'ERL/ERR in expressions; not tested by running programs')
     RULE = ('generated programs with every reference kind, missing targets, ON ERROR GOTO 0, references inside '
             'strings/REM/DATA, active error and event traps before/after the range, random RENUM new,old,step '
             '(including rejected ones); compared with the model on bytecode, line_numbers, old_to_new, reports, '
